@@ -190,8 +190,33 @@ def build_logic(case: "gen.Case", rec: Rec, gtable: Dict[str, Any],
                         delays=delays or {})
 
 
+class ServiceFailure(Exception):
+    pass
+
+
+def build_services(case: "gen.Case", rec: Rec) -> Dict[str, Any]:
+    """Plain-callable services from case.services: unique return value per call, or raise."""
+    out = {}
+    calls = {"n": 0}
+
+    def mk(name, plan):
+        def _svc(interp, ctx, event, _n=name, _p=plan):
+            calls["n"] += 1
+            inp = (getattr(event, "payload", None) or {}).get("input")
+            rec.log.append(("svcall", _n, inp, calls["n"]))
+            if _p["mode"] == "raise":
+                raise ServiceFailure("%s#%d" % (_n, calls["n"]))
+            return {"svc": _n, "call": calls["n"]}
+        return _svc
+    for name, plan in case.services.items():
+        out[name] = mk(name, plan)
+    return out
+
+
 def make_machine(case: "gen.Case", rec: Rec, gtable: Dict[str, Any], **kw):
     cfg = gen.materialize(case.plan)
+    if case.services and "services" not in kw:
+        kw["services"] = build_services(case, rec)
     logic = build_logic(case, rec, gtable, **kw)
     return create_machine(cfg, logic=logic)
 
@@ -249,12 +274,13 @@ def run_virtual(coro_fn: Callable[[], Any]):
         loop.close()
 
 
-async def drain(interp, max_yields: int = 20000) -> bool:
+async def drain(interp, max_yields: int = 20000, settle: int = 4) -> bool:
     """Wait until the async interpreter's queue is drained (no time passes).
 
     Returns False if quiescence was not reached within `max_yields` yields.
     """
     q = getattr(interp, "_event_queue", None)
+    calm = 0
     for _ in range(max_yields):
         if interp.status != "running":
             # let the consumer notice; nothing more will be processed
@@ -264,7 +290,11 @@ async def drain(interp, max_yields: int = 20000) -> bool:
         if unfinished is None:
             unfinished = 0 if q.empty() and not getattr(interp, "_processing", False) else 1
         if unfinished == 0 and not getattr(interp, "_processing", False):
-            return True
+            calm += 1
+            if calm > settle:
+                return True
+        else:
+            calm = 0
         await asyncio.sleep(0)
     return False
 
